@@ -655,8 +655,43 @@ fn heads_ticket_case(ctx: &mut Ctx, case: u64, rng: &mut Rng) {
             return;
         }
     }
+    for i in 0..80 {
+        let t = if i % 2 == 0 { hostile_text(rng) } else { bent_text(rng, &text) };
+        ctx.count("pasted_texts", 1);
+        if guard(ctx, case, "ticket-string-decoder", t.as_bytes(), || DocTicket::from_str(&t).map(|t| t.nodes.len())).is_none() {
+            return;
+        }
+    }
     if ctx.want_sample() {
         ctx.sample(json!({"case": case, "kind": "ticket", "text": text, "nodes": n_nodes}));
+    }
+}
+
+/// Text a person might paste: short strings over ASCII letters, white space and characters that take
+/// two, three and four bytes in UTF-8 (added after seeded change agent-C09-9: a parser that slices a
+/// string at a byte offset panics when the offset falls inside such a character).
+fn hostile_text(rng: &mut Rng) -> String {
+    const POOL: [&str; 18] = ["a", "d", "o", "c", "D", "O", "C", " ", "\t", "\n", "é", "€", "😀", "\u{0}", "ß", "ǆ", "\u{feff}", ":"];
+    let n = rng.below(10);
+    (0..n).map(|_| *rng.pick(&POOL)).collect()
+}
+
+/// A valid text with one of its first characters replaced by a multi-byte one, upper-cased, or padded.
+fn bent_text(rng: &mut Rng, valid: &str) -> String {
+    match rng.below(4) {
+        0 => {
+            let at = rng.below(valid.chars().count().min(10).max(1));
+            valid.chars().enumerate().map(|(i, c)| if i == at { *rng.pick(&['é', '€', '😀']) } else { c }).collect()
+        }
+        1 => valid.to_uppercase(),
+        2 => format!("{}{valid}{}", rng.pick(&[" ", "\n", "\u{feff}", ""]), rng.pick(&[" ", "\n", ""])),
+        _ => {
+            let at = rng.below(valid.chars().count().min(10) + 1);
+            let mut out: String = valid.chars().take(at).collect();
+            out.push(*rng.pick(&['é', '€', '😀']));
+            out.extend(valid.chars().skip(at));
+            out
+        }
     }
 }
 
@@ -737,6 +772,27 @@ fn misc_case(ctx: &mut Ctx, case: u64, rng: &mut Rng) {
                 return;
             }
             Some(true) => {}
+        }
+        for i in 0..60 {
+            let valid = [a.id().to_string(), n.id().to_string(), a.to_string(), n.to_string(), "prefix:utf8:ab".to_string(), "exact:hex:6162".to_string()];
+            let junk = if i % 2 == 0 {
+                hostile_text(rng)
+            } else {
+                let v = rng.pick(&valid).clone();
+                bent_text(rng, &v)
+            };
+            ctx.count("pasted_texts", 1);
+            if guard(ctx, case, "key-text-parser", junk.as_bytes(), || {
+                let _ = A::from_str(&junk);
+                let _ = N::from_str(&junk);
+                let _ = Author::from_str(&junk);
+                let _ = NamespaceSecret::from_str(&junk);
+                let _ = FilterKind::from_str(&junk);
+            })
+            .is_none()
+            {
+                return;
+            }
         }
         for _ in 0..40 {
             let n = rng.below(80);
